@@ -3,7 +3,7 @@ import itertools
 
 from .. import ops
 
-CODE_ALPHA = [0, 1, 2, 5, 22, 31, 38, 39, 48, 58, 99, 214]
+CODE_ALPHA = [0, 1, 2, 5, 22, 31, 38, 39, 48, 58, 99, 214, -1]      # -1: an empty parameter
 CS_ALPHA = ['\x1b', '[', '1', ';', '?', ' ', 'm', 'H', 'a']
 SET_ALPHA = ['0', '1', '2', '3', '5', '8', ';', ' ', '?', ':', 'm']
 
